@@ -83,8 +83,15 @@ func runMeta(w *World, rs *RunSpec) {
 		p := GenPlan(c, i, GenOpts{MaxMsgs: 3, SmallOnly: true, NoMD: true})
 		p.Tunnel = t.Idx
 		genMetaPlan(c, p, binOK)
+		if i == 0 && rs.P("bare", 0) == 1 {
+			// "no metadata at all": nothing in the outgoing context, no
+			// credentials (one such RPC per run; variant selected by a
+			// parameter, not a draw, so that older replays keep their meaning)
+			p.Bare, p.NoOutgoingMD, p.ReqMD, p.Creds = true, true, nil, nil
+		}
 		plans = append(plans, p)
 		d := planDesc(p)
+		d["bare"] = p.Bare
 		d["handler"] = opsDesc(p.Handler)
 		d["caller_recv"] = opsDesc(p.CallerRecv)
 		d["req_md"] = p.ReqMD
@@ -433,7 +440,7 @@ func OracleC02(w *World, h *History) {
 		// ---- request metadata as seen by the handler
 		if hr.Info != nil {
 			exp := metadata.MD{}
-			if !p.NoOutgoingMD {
+			if !p.NoOutgoingMD && !p.Bare {
 				for k, v := range p.ReqMD {
 					exp[k] = append([]string(nil), v...)
 				}
